@@ -5,7 +5,7 @@ import re
 from scan import ExtractionBreak
 
 TOKEN = re.compile(r'''\s*(?:
-   (?P<num>(?:0[xX][0-9a-fA-F']+|0[bB][01']+|\d[\d']*\.\d*(?:[eE][-+]?\d+)?|\.\d+(?:[eE][-+]?\d+)?|\d[\d']*(?:[eE][-+]?\d+)?)(?:[uUlLfF]*))
+   (?P<num>(?:0[xX][0-9a-fA-F.]+[pP][-+]?\d+|0[xX][0-9a-fA-F']+|0[bB][01']+|\d[\d']*\.\d*(?:[eE][-+]?\d+)?|\.\d+(?:[eE][-+]?\d+)?|\d[\d']*(?:[eE][-+]?\d+)?)(?:[uUlLfF]*))
   |(?P<id>[A-Za-z_]\w*)
   |(?P<str>"(?:\\.|[^"\\])*")
   |(?P<chr>'(?:\\.|[^'\\])')
